@@ -186,8 +186,13 @@ package composite
 //@   let isParent = typeis(obj, *unstructured.Unstructured)
 //@   let p = unbox(obj, *unstructured.Unstructured)
 //@   at Add(q, item) [C14,C12]: kfErr == nil && typeis(item, string) && unbox(item, string) == key && (isParent ==> interestedIn(pc, p))
+//@   // "parents that neither match nor carry the finalizer are never queued" - also when the deletion arrives as a tombstone
+//@   let isTomb = typeis(obj, cache.DeletedFinalStateUnknown) && typeis(unbox(obj, cache.DeletedFinalStateUnknown).Obj, *unstructured.Unstructured) && unbox(unbox(obj, cache.DeletedFinalStateUnknown).Obj, *unstructured.Unstructured) != nil
+//@   at Add(q, item) [C14]: isTomb ==> interestedIn(pc, unbox(unbox(obj, cache.DeletedFinalStateUnknown).Obj, *unstructured.Unstructured))
+//@   let tp = unbox(unbox(obj, cache.DeletedFinalStateUnknown).Obj, *unstructured.Unstructured)
 //@   ensures [C14] isParent && !interestedIn(pc, p) ==> !called(Add) && !called(KeyFunc)
-//@   ensures [C14] (!isParent || interestedIn(pc, p)) ==> called(KeyFunc) && (kfErr == nil ==> count(Add) == 1)
+//@   ensures [C14] isTomb && !interestedIn(pc, tp) ==> !called(Add) && !called(KeyFunc)
+//@   ensures [C14] (isParent && interestedIn(pc, p)) || (isTomb && interestedIn(pc, tp)) ==> called(KeyFunc) && (kfErr == nil ==> count(Add) == 1)
 
 //@ func parentController.updateParentObject(pc, old, cur) ()
 //@   requires validPC(pc)
